@@ -132,8 +132,8 @@ fn with_delivery(rng: &mut Rng, seed: u64, script: Vec<Step>, label: &str) -> Sc
     let (_, stream) = session_bytes(&sc);
     let mut ends = vec![];
     let mut off = 0;
-    for st in &sc.script {
-        off += crate::h::client::frame_of(st).len();
+    for f in crate::h::client::frames_of(&sc.script) {
+        off += f.len();
         ends.push(off);
     }
     sc.knobs = pick_knobs(rng, false);
@@ -224,8 +224,7 @@ fn header_body_points(sc: &Scenario) -> Vec<(usize, usize)> {
     // (frame start, body start) for each frame
     let mut out = vec![];
     let mut off = 0;
-    for st in &sc.script {
-        let f = crate::h::client::frame_of(st);
+    for f in crate::h::client::frames_of(&sc.script) {
         let hdr = f.windows(4).position(|w| w == b"\r\n\r\n").unwrap() + 4;
         out.push((off, off + hdr));
         off += f.len();
@@ -463,7 +462,7 @@ pub fn judge(sc: &Scenario) -> Judgement {
     j.probe("stdout pipe full", c.stdout_full);
     j.probe("reader found stdin empty", c.stdin_empty);
     j.probe("closed-loop barrier in script", sc.script.iter().filter(|s| s.wait).count() as u64);
-    let sizes: Vec<usize> = sc.script.iter().map(|s| crate::h::client::frame_of(s).len()).collect();
+    let sizes: Vec<usize> = crate::h::client::frames_of(&sc.script).iter().map(|f| f.len()).collect();
     j.probe("frame with 5-digit Content-Length", sizes.iter().any(|n| *n > 10_030) as u64);
     j.probe("frame shorter than 60 bytes followed by a barrier", sizes.iter().zip(sc.script.iter().skip(1)).any(|(n, nx)| *n < 60 && nx.wait) as u64);
     let non_ascii = session_bytes(sc).1.iter().any(|b| *b >= 0x80);
